@@ -1,13 +1,17 @@
 """C12 -- all geometry is covariant under translation of the coordinate origin.
 
-Every row runs ONE public entry point of the implementation twice: at origin o and at origin o + d (every
-coordinate-valued argument translated by d as well).  It yields
+Every row runs ONE public entry point of the implementation at origin o and at origin o + d (every coordinate-valued argument
+translated by d as well), and then once more at each origin on the SAME objects.  It yields
   * Coq cases `KPair d obs_at_o obs_at_o_plus_d`: [agree] = model and origin-free closed form equal the implementation's output at
     both origins; [spec_ok] = THE PROPERTY evaluated on the two implementation outputs (coordinate-valued results differ by
     exactly d, index-valued results are identical) -- so a change that keeps the property but moves the geometry is reported
     as a broken correspondence (no failing input), not as a violation;
   * py_ok: the same metamorphic relation, exactly (Fractions), over everything observed including results that have no Coq
-    case (values, neighbour tables, mapping matrices, extra grids of a dataset).
+    case (values, neighbour tables, mapping matrices, extra grids of a dataset, the frame each construction route delivered),
+    plus: the caller's inputs are intact after the calls, and a second evaluation on the same objects gives the same results.
+Histories (see "provenance and histories" below): the structures reach the entry point by different routes in the two runs
+(fresh / derived / copied / edited in place after reads / used before), configuration objects (OverSamplingUniform,
+OverSamplingDataset, image_mesh.Overlay, SimulatorImaging, the PSF, image_mesh.Hilbert) are SHARED by the two runs.
 All inputs are dyadic multiples of the pixel scale, so every double operation of the implementation is exact.
 """
 import random
@@ -24,21 +28,30 @@ COQ_IMPORTS = ""
 SHARD = 150
 EXHAUSTIVE = {}
 RULE = ("masks of shape 1x1..7x8 (mostly non-square; styles: random density 0.15-0.9, single pixel, ring with hole, full, two "
-        "components, outer-ring pixels, circular), pixel scales (py, px) in {1/4,1/2,1,3/2,2,3}^2 (often unequal), origin o = "
-        "(py*a/4, px*b/4) and translation d = (py*e/4, px*f/4), a,b,e,f in -12..12, d != 0 (sometimes o = 0); every entry point of "
-        "observe_at is run at o and o+d. Non-trivial = at least 2 unmasked pixels and o+d != 0; distinct = distinct JSON input.")
+        "components, outer-ring pixels, circular), pixel scales (py, px) in {1/4,1/2,1,3/2,2,3}^2 (often unequal), in 30% of the cases "
+        "times 2^e with e in {-30,-27,10,20} per axis (tiny and huge magnitudes, 40% of them with a different e per axis), origin o = "
+        "(py*a/4, px*b/4) and translation d = (py*e/4, px*f/4), a,b,e,f in -12..12, d != 0 (sometimes o = 0, sometimes one component "
+        "of d = 0); every entry point of observe_at is run at o and o+d, then AGAIN on the same objects. The mask / grid / array handed "
+        "to the entry point reaches it by a route chosen independently for the two runs: fresh, list input, resized_from, slice, "
+        "mask of an Array2D / Grid2D (also after arithmetic, native storage), copy / deepcopy / pickle, in-place edits after every "
+        "property was read, inverted, mask of a masked dataset, derive_mask.edge/border, already used; datasets fresh or derived; "
+        "12% of the cases under general.structures.native_binned_only=True, radial projections also with "
+        "general.grid.remove_projected_centre=True. Non-trivial = at least 2 unmasked pixels and o+d != 0; distinct = distinct JSON input.")
 TRUSTED = ["hand-written Gallina model coq/Model/C12.v (util layer + origin plumbing of every call site), tied to /repo by this run: "
            "exact rational comparison inside Coq (vm_compute) at both origins, plus the metamorphic relation on the implementation",
-           "edge/border index lists, blurring and resized masks are functions of the boolean mask array only (their values are taken "
-           "from the implementation and required to be identical at both origins); C10/C14 own their content",
-           "scipy.interpolate.griddata/interp1d (Hilbert image mesh) and scipy.spatial.Delaunay (MapperDelaunay) are oracles: only the "
-           "metamorphic relation is checked for them, with tolerance 1e-9",
-           "doubles: all generated values are dyadic multiples of the pixel scales so every operation is exact (cases whose "
-           "intermediate quotients are not dyadic are skipped and counted)"]
+           "blurring, resized and rescaled masks are functions of the boolean mask array only (their values are taken from the "
+           "implementation and required to be identical at both origins; C10/C14 own their content); edge/border index lists are "
+           "compared twice: as reported by the implementation and as computed by C10's model (coq/Model/C10.v)",
+           "scipy.interpolate.griddata/interp1d (Hilbert image mesh), scipy.spatial.Delaunay (MapperDelaunay) and scikit-image's rescale "
+           "(Mask2D.rescaled_from) are oracles: only the metamorphic relation is checked for what they compute",
+           "doubles: all generated values are dyadic multiples of the pixel scales (any power-of-two magnitude) so every operation is "
+           "exact (cases whose intermediate quotients are not dyadic are skipped and counted); tolerances, where unavoidable (sqrt, "
+           "mean, cos/sin), are 1e-9 RELATIVE to the pixel scale of each axis"]
 ASSUMPTIONS = ["real arithmetic (no rounding): theorems over R, correspondence on exactly representable inputs",
-               "radial projection is modelled at angle = 0 (arctan2(0, s) = 0 for s >= 0); other angles: metamorphic relation with tolerance",
+               "radial projection at a non-zero angle: the model takes the pair (cos theta, sin theta) that numpy computed (theta = "
+               "arctan2(0, s) - radians(angle) is the same double for every projected point since s >= 0)",
                "Hilbert mesh and Delaunay mapper: metamorphic relation on the implementation only (tolerance 1e-7 / 1e-9); border "
-               "relocation: model vs implementation and relation with tolerance 1e-9, decisions kept at an exact margin 1e-6"]
+               "relocation: model vs implementation and relation with tolerance 1e-9 (relative), decisions kept at an exact margin"]
 
 PS = [F(1, 4), F(1, 2), F(1), F(3, 2), F(2), F(3)]
 SKIPPED = {"inexact": 0}
@@ -50,9 +63,14 @@ def P(s): return (F(s[0]), F(s[1]))
 def S(p): return [str(p[0]), str(p[1])]
 def padd(p, d): return (p[0] + d[0], p[1] + d[1])
 def dyadic(x, bits=40):
+    """x is a dyadic rational whose odd part has at most [bits] bits (scale-free: 3 * 2**-31 and 5 * 2**20 qualify): such a
+    value is a double, and a sum / product / quotient whose TRUE value qualifies is computed exactly in doubles"""
     x = F(x)
     den = x.denominator
-    return den & (den - 1) == 0 and den <= 2 ** 30 and abs(x.numerator) < 2 ** bits
+    if den & (den - 1) != 0: return False
+    n = abs(x.numerator)
+    while n and n % 2 == 0: n //= 2
+    return n < 2 ** bits
 def fdiv_exact(a, b):
     """is the double quotient a/b exact?  (a, b exactly representable)"""
     return b != 0 and dyadic(F(a) / F(b))
@@ -74,8 +92,156 @@ def geom_of(mask): return (int(mask.shape_native[0]), int(mask.shape_native[1]),
 def geom_shift(g, d): return (g[0], g[1], g[2], padd(g[3], d))
 def jg(g): return [[str(p[0]), str(p[1])] for p in g]
 
-def mk_mask(aa, m, ps, o):
+def fresh_mask(aa, m, ps, o):
     return aa.Mask2D(mask=np.array(m, dtype=bool), pixel_scales=(fl(ps[0]), fl(ps[1])), origin=(fl(o[0]), fl(o[1])))
+
+# ------------------------------------------------------------------------------------------------ provenance and histories
+# Every entry point is observed on masks / grids / arrays that reach it through DIFFERENT routes (chosen independently for the
+# run at origin o and the run at o + d): freshly constructed, derived from another structure, copied, un-pickled, edited in
+# place after other results were read from the same object, or already used for other calls.  All routes yield a structure
+# with the same boolean array, pixel scales and origin, so the expected results (Coq model, relation) do not depend on the
+# route; the frame the route really delivered is itself recorded as a result ("geom") and must translate by d.
+ROUTES = {}
+CTX = {"prov": "fresh", "gprov": 0, "aprov": 0, "rng": None, "made": [], "geoms": [], "args": [], "memo": None}
+MASK_PROVS = ["fresh", "fresh", "fresh", "list", "resized", "sliced", "array_mask", "grid_mask", "copy", "pickle", "edited",
+              "edited_all_false", "inverted", "dataset_mask", "derived_edge", "used"]
+
+def mask_fp(mask):
+    return ([[bool(b) for b in r] for r in np.array(mask)], (fr(mask.pixel_scales[0]), fr(mask.pixel_scales[1])),
+            (fr(mask.origin[0]), fr(mask.origin[1])))
+
+def read_everything(aa, mask):
+    """read the (non-cached) geometry-valued properties of a mask object; the values are discarded"""
+    try:
+        mask.mask_centre; mask.zoom_centre; mask.zoom_offset_pixels; mask.zoom_offset_scaled; mask.zoom_region; mask.zoom_shape_native
+        mask.zoom_mask_unmasked; mask.shape_native_masked_pixels
+    except ValueError:
+        pass                                # fully masked: np.amin of an empty array
+    mask.geometry.extent; mask.geometry.central_scaled_coordinates; mask.pixels_in_mask
+    mask.derive_grid.unmasked; mask.derive_grid.all_false; mask.derive_grid.edge; mask.derive_grid.border
+    mask.derive_indexes.edge_slim; mask.derive_mask.edge; mask.derive_mask.all_false
+    aa.Grid2D.from_mask(mask=mask)
+
+def build_mask(aa, m, ps, o, prov, r):
+    import copy, pickle
+    H, W = len(m), len(m[0])
+    kw = dict(pixel_scales=(fl(ps[0]), fl(ps[1])), origin=(fl(o[0]), fl(o[1])))
+    if prov == "fresh": return fresh_mask(aa, m, ps, o)
+    if prov == "list": return aa.Mask2D(mask=[list(map(bool, row)) for row in m], **kw)
+    if prov in ("resized", "sliced"):
+        a, b = r.randint(0, 2), r.randint(0, 2)
+        big = [[True] * (W + 2 * b) for _ in range(H + 2 * a)]
+        for y in range(H):
+            for x in range(W): big[y + a][x + b] = m[y][x]
+        parent = aa.Mask2D(mask=np.array(big, dtype=bool), **kw)
+        if r.random() < 0.5: read_everything(aa, parent)
+        return parent.resized_from(new_shape=(H, W), pad_value=1) if prov == "resized" else parent[a:a + H, b:b + W]
+    if prov == "array_mask":
+        arr = aa.Array2D(values=np.arange(float(H * W)).reshape(H, W), mask=fresh_mask(aa, m, ps, o))
+        return r.choice([lambda: arr.mask, lambda: (arr * 2.0).mask, lambda: arr.native.mask, lambda: arr.native.slim.mask,
+                         lambda: (arr + arr).mask, lambda: abs(arr - 1.0).mask])()
+    if prov == "grid_mask":
+        fm = fresh_mask(aa, m, ps, o)
+        g = aa.Grid2D.from_mask(mask=fm)
+        return r.choice([lambda: g.mask, lambda: (g + 1.0).mask, lambda: g.native.mask, lambda: fm.derive_grid.unmasked.mask,
+                         lambda: g.native.slim.mask, lambda: (2.0 * g).mask])()
+    if prov == "copy":
+        fm = fresh_mask(aa, m, ps, o)
+        if r.random() < 0.5: read_everything(aa, fm)
+        return r.choice([lambda: copy.copy(fm), lambda: copy.deepcopy(fm), lambda: fm.copy(),
+                         lambda: fm.with_new_array(np.array(m, dtype=bool))])()
+    if prov == "pickle": return pickle.loads(pickle.dumps(fresh_mask(aa, m, ps, o)))
+    if prov in ("edited", "edited_all_false"):
+        # read -> in-place edit by the user -> re-read: the object first holds ANOTHER boolean array, every geometry-valued
+        # property is read from it, then it is edited cell by cell / row by row into m
+        m0 = [[False] * W for _ in range(H)] if prov == "edited_all_false" else [[r.random() < 0.5 for _ in range(W)] for _ in range(H)]
+        if prov == "edited_all_false": mask = aa.Mask2D.all_false(shape_native=(H, W), **kw)
+        else: mask = fresh_mask(aa, m0, ps, o)
+        read_everything(aa, mask)
+        rows_first = r.random() < 0.3
+        for y in range(H):
+            if rows_first and r.random() < 0.5: mask[y, :] = np.array(m[y], dtype=bool)
+            else:
+                for x in range(W):
+                    if m0[y][x] != m[y][x]: mask[y, x] = bool(m[y][x])
+        return mask
+    if prov == "inverted":
+        inv = [[not b for b in row] for row in m]
+        if r.random() < 0.5: return aa.Mask2D(mask=np.array(inv, dtype=bool), invert=True, **kw)
+        return fresh_mask(aa, inv, ps, o).invert()
+    if prov == "dataset_mask":
+        data = aa.Array2D.no_mask(values=np.ones((H, W)), **kw)
+        ds = aa.Imaging(data=data, noise_map=aa.Array2D.no_mask(values=np.ones((H, W)), **kw)).apply_mask(mask=fresh_mask(aa, m, ps, o))
+        return r.choice([lambda: ds.mask, lambda: ds.data.mask, lambda: ds.noise_map.mask, lambda: ds.grids.uniform.mask])()
+    if prov == "derived_edge":      # only when every unmasked pixel is an edge pixel (else the array differs: fresh is used)
+        fm = fresh_mask(aa, m, ps, o)
+        return fm.derive_mask.edge if r.random() < 0.5 else fm.derive_mask.border
+    if prov == "used":
+        fm = fresh_mask(aa, m, ps, o); read_everything(aa, fm); return fm
+    raise ValueError(prov)
+
+def mk_mask(aa, m, ps, o):
+    """the mask (m, ps, o) for the entry point under test, through the route of this run; the frame that the route delivered is
+    recorded as a result of the run; when the route does not deliver (m, ps, o) the fresh mask is used for the entry point"""
+    key = (str(m), ps, o)
+    if CTX["memo"] is not None and key in CTX["memo"]: return CTX["memo"][key]      # the SAME object is used again
+    prov = CTX["prov"]
+    r = random.Random(CTX["rng"].randrange(10 ** 9)) if CTX["rng"] is not None else random.Random(0)
+    try:
+        mask = build_mask(aa, m, ps, o, prov, r) if any(not b for row in m for b in row) or prov in ("fresh", "list", "copy", "pickle") \
+            else fresh_mask(aa, m, ps, o)
+    except Exception as e:
+        CTX["geoms"].append(("inv", "route " + prov + " raised " + exn_name(e)))
+        ROUTES[prov + ":raised"] = ROUTES.get(prov + ":raised", 0) + 1
+        mask = fresh_mask(aa, m, ps, o)
+    else:
+        CTX["geoms"].append(("geom", geom_of(mask)) if np.array(mask).ndim == 2 else ("inv", "not 2D"))
+    if mask_fp(mask) != ([[bool(b) for b in row] for row in m], ps, o):
+        ROUTES[prov + ":fell-back"] = ROUTES.get(prov + ":fell-back", 0) + 1
+        mask = fresh_mask(aa, m, ps, o)
+    else: ROUTES[prov] = ROUTES.get(prov, 0) + 1
+    CTX["made"].append((mask, ([[bool(b) for b in row] for row in m], ps, o)))
+    if CTX["memo"] is not None: CTX["memo"][key] = mask
+    return mask
+
+def mk_grid(aa, mask):
+    """Grid2D of the pixel centres of [mask], fresh or DERIVED (arithmetic, native storage and back, re-wrapped values)"""
+    k = CTX["gprov"]
+    key = ("grid", id(mask), k)
+    if CTX["memo"] is not None and key in CTX["memo"]: return CTX["memo"][key]      # the SAME grid object is used again
+    g = aa.Grid2D.from_mask(mask=mask)
+    if k == 1: g = mask.derive_grid.unmasked
+    elif k == 2: g = g.native.slim
+    elif k == 3: g = aa.Grid2D(values=np.array(g.native), mask=mask)
+    elif k == 4: g = (g + 1.0) - 1.0
+    elif k == 5: g = g * 1.0
+    elif k == 6: g = g.with_new_array(np.array(g).copy())
+    elif k == 7: g = aa.Grid2D(values=np.array(g), mask=mask).native.slim
+    CTX["args"].append((g, np.array(g).copy(), mask_fp(g.mask)))
+    if CTX["memo"] is not None: CTX["memo"][key] = g
+    return g
+
+def mk_array(aa, vals2d, mask):
+    """Array2D of the 2D values on [mask], fresh or DERIVED"""
+    a = aa.Array2D(values=np.array(vals2d, dtype=float), mask=mask)
+    k = CTX["aprov"]
+    if k == 1: a = a * 1.0
+    elif k == 2: a = a.native
+    elif k == 3: a = aa.Array2D(values=np.array(vals2d, dtype=float), mask=mask, store_native=True)
+    elif k == 4: a = a.native.slim
+    elif k == 5: a = aa.Array2D(values=np.array(a), mask=mask)
+    elif k == 6: a = (a + 1.0) - 1.0
+    CTX["args"].append((a, np.array(a).copy(), mask_fp(a.mask)))
+    return a
+
+def check_untouched():
+    """(d) the caller's inputs after the calls: every mask / grid / array handed to an entry point still holds what it held"""
+    for mask, fp in CTX["made"]:
+        if mask_fp(mask) != fp: return f"a mask handed to the entry point was modified: {fp[1:]} -> {mask_fp(mask)[1:]} (or its array)"
+    for obj, vals, fp in CTX["args"]:
+        if not np.array_equal(np.array(obj), vals, equal_nan=True) or mask_fp(obj.mask) != fp:
+            return "a grid / array handed to the entry point was modified"
+    return None
 
 # ------------------------------------------------------------------------------------------------ generators
 def rand_mask(rng, H, W, style):
@@ -112,11 +278,15 @@ def rand_mask(rng, H, W, style):
             y, x = rng.choice(cells); m[y][x] = False
     return m
 
-def rand_frame(rng, zero_origin=False):
+SCALE_EXPS = [-30, -27, 10, 20]        # pixel scales down to 2.3e-10 and up to 3.1e6 (value ranges: tiny and huge magnitudes)
+def rand_frame(rng, zero_origin=False, scaled=True, same_exp=False):
     if rng.random() < 0.35:
         p = rng.choice(PS); ps = (p, p)
     else:
         ps = (rng.choice(PS), rng.choice(PS))
+    if scaled and rng.random() < 0.3:
+        ey = rng.choice(SCALE_EXPS); ex = ey if (same_exp or rng.random() < 0.6) else rng.choice(SCALE_EXPS)
+        ps = (ps[0] * F(2) ** ey, ps[1] * F(2) ** ex)
     o = (ps[0] * F(rng.randint(-12, 12), 4), ps[1] * F(rng.randint(-12, 12), 4))
     if zero_origin or rng.random() < 0.15: o = (F(0), F(0))
     while True:
@@ -127,52 +297,116 @@ def rand_frame(rng, zero_origin=False):
 
 STYLES = ["random", "random", "random", "single", "ring", "full", "two", "interior"]
 GRID_OPS = ["from_mask", "dg_all_false", "dg_unmasked", "dg_edge", "dg_border", "blurring", "padded", "trimmed_array", "subtracted", "over", "sub_grid",
-            "resized", "centre", "extent", "zoom_unmasked", "zoomed_around", "zoom_props", "radial", "overlay",
+            "resized", "rescaled", "centre", "extent", "zoom_unmasked", "zoomed_around", "zoom_props", "radial", "overlay",
             "pixel_coords", "pixel_grids", "scaled_of_pixels", "rect_mapper",
             "ds_apply_mask", "ds_noise_scaling", "ds_over_sampling", "ds_trimmed", "ds_simulate", "ds_s2n"]
 
 def gen_inputs(tier, rng):
-    n = 1100 if tier == "thorough" else 40
+    n = 750 if tier == "thorough" else 36
     for i in range(n):
         for op in GRID_OPS:
             H, W = rng.randint(1, 7), rng.randint(1, 8)
             if rng.random() < 0.15: W = H
             style = rng.choice(STYLES)
-            ps, o, d = rand_frame(rng)
+            # (the radial projection steps along x with the pixel scale of the longer axis: the two scales must be commensurable
+            # for the sums to be exact in doubles, so both axes get the same power of two there)
+            ps, o, d = rand_frame(rng, same_exp=(op == "radial"))
             if op in ("blurring",): H, W, style = rng.randint(3, 7), rng.randint(3, 8), "interior"
             if op == "rect_mapper" and rng.random() < 0.8: ps = (ps[0], ps[0]); o = (o[0], ps[0] * F(rng.randint(-12, 12), 4)); d = (d[0], ps[0] * F(rng.randint(-12, 12), 4))
             if op == "ds_s2n": H = max(H, 2)     # a one-row 2-D data set takes the function's Array1D branch (and raises): outside C12
             m = rand_mask(rng, H, W, style)
             inp = {"op": op, "m": m, "ps": S(ps), "o": S(o), "d": S(d), "seed": rng.randrange(10 ** 9)}
             yield inp
-    counts = {"hilbert_geometry": 3, "hilbert_mesh": 2, "delaunay_mapper": 4, "relocate": 14, "radial_angle": 4}
+    counts = {"hilbert_geometry": 3, "hilbert_mesh": 2, "delaunay_mapper": 4, "relocate": 16, "radial_angle": 10}
     for op in sorted(SPECIAL):
         for i in range(counts.get(op, 3) * (10 if tier == "thorough" else 1)):
-            ps, o, d = rand_frame(rng)
+            ps, o, d = rand_frame(rng, same_exp=True)
             yield {"op": op, "ps": S(ps), "o": S(o), "d": S(d), "seed": rng.randrange(10 ** 9)}
 
 # ------------------------------------------------------------------------------------------------ one row
+def one_run(aa, op, m, ps, o, dd, prm, route, seed, memo):
+    CTX.update(prov=route[0], gprov=route[1], aprov=route[2], rng=random.Random(seed), made=[], geoms=[], args=[], memo=memo)
+    res = OPS[op](aa, m, ps, o, dd, prm)
+    if res is None: return None
+    res["own_rel"] = list(res["rel"])
+    res["rel"] = res["rel"] + CTX["geoms"]
+    res["touched"] = check_untouched()
+    return res
+
+# non-default configuration combinations (pushed for the whole case, both origins; restored afterwards; recorded in the output)
+NO_NATIVE_ONLY = {"over", "sub_grid", "pixel_grids", "rect_mapper", "ds_over_sampling"}    # unsupported by the library under native_binned_only
+def config_for(inp):
+    r = random.Random(inp["seed"] * 11 + 5)
+    cfg = {}
+    if inp["op"] not in NO_NATIVE_ONLY and r.random() < 0.12: cfg[("general", "structures", "native_binned_only")] = True
+    if inp["op"] == "radial" and r.random() < 0.5: cfg[("general", "grid", "remove_projected_centre")] = True
+    return cfg
+class pushed_config:
+    def __init__(self, cfg): self.cfg = cfg; self.old = {}
+    def __enter__(self):
+        from autoconf import conf
+        for (a, b, c), v in self.cfg.items():
+            self.old[(a, b, c)] = conf.instance[a][b][c]; conf.instance[a][b][c] = v
+    def __exit__(self, *exc):
+        from autoconf import conf
+        for (a, b, c), v in self.old.items(): conf.instance[a][b][c] = v
+        return False
+
+def routes_for(inp):
+    """how the structures reach the entry point in the run at o and in the run at o + d (independent choices)"""
+    r = random.Random(inp["seed"] * 7 + 3)
+    def one(): return (r.choice(MASK_PROVS), r.choice([0, 0, 0, 1, 2, 3, 4, 5, 6, 7]), r.choice([0, 0, 0, 1, 2, 3, 4, 5, 6]))
+    rts = [one(), one()] if r.random() < 0.8 else [("fresh", 0, 0), ("fresh", 0, 0)]
+    if inp["op"] in PROPERTY_OPS and r.random() < 0.4:
+        # entry points that are plain properties of the mask: in ONE of the two runs the object held another array when the property
+        # was first read, and was then edited in place (a stale value shows as a broken translation law)
+        k = r.randrange(2)
+        rts[k] = (r.choice(["edited", "edited_all_false"]),) + rts[k][1:]
+        if rts[1 - k][0].startswith("edited"): rts[1 - k] = ("fresh",) + rts[1 - k][1:]
+    return rts
+PROPERTY_OPS = {"centre", "extent", "zoom_unmasked", "zoomed_around", "zoom_props", "overlay", "dg_unmasked", "dg_all_false", "dg_edge", "dg_border"}
+
 def run_case(inp):
     aa = import_aa()
     op = inp["op"]
     ps, o, d = P(inp["ps"]), P(inp["o"]), P(inp["d"])
     o2 = padd(o, d)
     rng = random.Random(inp["seed"])
-    if op in SPECIAL: return SPECIAL[op](aa, inp, ps, o, d, rng)
+    if op in SPECIAL:
+        SHARED.clear()
+        CTX.update(prov="fresh", gprov=0, aprov=0, rng=None, made=[], geoms=[], args=[], memo=None)
+        return SPECIAL[op](aa, inp, ps, o, d, rng)
     m = inp["m"]
     nun = sum(1 for r in m for b in r if not b)
     prm = PARAMS[op](rng, m, ps) if op in PARAMS else {}
     SHARED.clear()
-    a = OPS[op](aa, m, ps, o, (F(0), F(0)), prm)          # at origin o: arguments that are coordinates get + 0
-    b = OPS[op](aa, m, ps, o2, d, prm)                    # at origin o + d: coordinate arguments get + d
+    cfg = config_for(inp)
+    with pushed_config(cfg):
+        return run_pair(aa, inp, op, m, ps, o, o2, d, prm, nun, cfg)
+
+def run_pair(aa, inp, op, m, ps, o, o2, d, prm, nun, cfg):
+    ra, rb = routes_for(inp)
+    memo_a, memo_b = {}, {}
+    a = one_run(aa, op, m, ps, o, (F(0), F(0)), prm, ra, inp["seed"] + 1, memo_a)      # at origin o: coordinate arguments get + 0
+    b = one_run(aa, op, m, ps, o2, d, prm, rb, inp["seed"] + 2, memo_b)                # at origin o + d: coordinate arguments get + d
     if a is None or b is None:
         SKIPPED["inexact"] += 1
         return {"coq": None, "py_ok": None, "kind": op + ":skipped-inexact", "nontrivial": False, "out": "skipped"}
     ok, why = relate(a["rel"], b["rel"], d)
+    if ok and (a["touched"] or b["touched"]): ok, why = False, a["touched"] or b["touched"]
+    if ok:
+        # the SAME objects (masks, shared configuration objects) are evaluated a second time, after the run at the other origin
+        a2 = one_run(aa, op, m, ps, o, (F(0), F(0)), prm, ra, inp["seed"] + 1, memo_a)
+        b2 = one_run(aa, op, m, ps, o2, d, prm, rb, inp["seed"] + 2, memo_b)
+        for x, x2, oo in ((a, a2, o), (b, b2, o2)):
+            if x2 is None or x2["own_rel"] != x["own_rel"] or x2["coq"] != x["coq"]:
+                ok, why = False, f"the entry point evaluated a second time on the same mask object (origin {S(oo)}) gave another result"
+            elif x2["touched"]: ok, why = False, x2["touched"]
     assert len(a["coq"]) == len(b["coq"])
     cases = [f"(KPair {cpt(d)} {x} {y})" for x, y in zip(a["coq"], b["coq"])]
     return {"coq": cases[0] if cases else None, "extra_coq": cases[1:], "py_ok": ok, "kind": op,
-            "nontrivial": nun >= 2, "out": {"at_o": a["show"], "at_o_plus_d": b["show"], "relation": why, "params": str(prm)[:300]},
+            "nontrivial": nun >= 2, "out": {"at_o": a["show"], "at_o_plus_d": b["show"], "relation": why, "params": str(prm)[:300],
+                                            "routes": str([ra, rb]), "config": str(cfg)},
             "detail": why}
 
 def relate(ra, rb, d):
@@ -211,7 +445,9 @@ def op_sel(which):
         mask = mk_mask(aa, m, ps, o)
         idx = [int(i) for i in (mask.derive_indexes.edge_slim if which == "edge" else mask.derive_indexes.border_slim)]
         g = grid_out(mask.derive_grid.edge if which == "edge" else mask.derive_grid.border)
-        return {"coq": [kgrid(f"(GSel {clist([cnat(i) for i in idx])})", m, ps, o, g)], "rel": [("grid", g), ("inv", idx)], "show": jg(g[:4])}
+        # twice: against the index list the implementation reports (GSel) and against C10's model of that list (GEdge / GBorder)
+        return {"coq": [kgrid(f"(GSel {clist([cnat(i) for i in idx])})", m, ps, o, g), kgrid("GEdge" if which == "edge" else "GBorder", m, ps, o, g)],
+                "rel": [("grid", g), ("inv", idx)], "show": jg(g[:4])}
     return f
 
 def op_blurring(aa, m, ps, o, dd, prm):
@@ -231,9 +467,18 @@ def op_resized(aa, m, ps, o, dd, prm):
     g = grid_out(rm.derive_grid.unmasked)
     return {"coq": [kgrid(f"(GDerived {cmask(rml)})", m, ps, o, g)], "rel": [("grid", g), ("inv", rml), ("geom", geom_of(rm))], "show": jg(g[:4])}
 
+def op_rescaled(aa, m, ps, o, dd, prm):
+    """Mask2D.rescaled_from (scikit-image's rescale is an oracle for the boolean array, which must not depend on the origin; the
+    frame of the returned mask and its grid are modelled: derive_mask with that array)"""
+    mask = mk_mask(aa, m, ps, o)
+    rm = mask.rescaled_from(rescale_factor=prm["factor"])
+    rml = [[bool(b) for b in r] for r in np.array(rm)]
+    g = grid_out(rm.derive_grid.unmasked)
+    return {"coq": [kgrid(f"(GDerived {cmask(rml)})", m, ps, o, g)], "rel": [("grid", g), ("inv", rml), ("geom", geom_of(rm))], "show": jg(g[:4])}
+
 def op_padded(aa, m, ps, o, dd, prm):
     mask = mk_mask(aa, m, ps, o)
-    pg = aa.Grid2D.from_mask(mask=mask).padded_grid_from(kernel_shape_native=prm["k"])
+    pg = mk_grid(aa, mask).padded_grid_from(kernel_shape_native=prm["k"])
     g = grid_out(pg); ge = geom_of(pg.mask)
     return {"coq": [kgrid(f"(GPadded {cz(prm['k'][0])} {cz(prm['k'][1])})", m, ps, o, g),
                     f"(KGeom (MPadded {cz(prm['k'][0])} {cz(prm['k'][1])}) {cM(m, ps, o)} (Some {cgeom(ge)}))"],
@@ -245,7 +490,7 @@ def op_trimmed_array(aa, m, ps, o, dd, prm):
     H, W = len(m), len(m[0])
     pm = aa.Grid2D.from_mask(mask=mask).padded_grid_from(kernel_shape_native=prm["k"]).mask
     PH, PW = int(pm.shape_native[0]), int(pm.shape_native[1])
-    arr = aa.Array2D(values=np.arange(float(PH * PW)).reshape(PH, PW), mask=pm)
+    arr = mk_array(aa, np.arange(float(PH * PW)).reshape(PH, PW), pm)
     ish = prm["image_shape"] or (H, W)
     tr = pm.trimmed_array_from(padded_array=arr, image_shape=ish)
     ge = geom_of(tr.mask)
@@ -260,7 +505,7 @@ def op_trimmed_array(aa, m, ps, o, dd, prm):
 def op_subtracted(aa, m, ps, o, dd, prm):
     mask = mk_mask(aa, m, ps, o)
     off = prm["off"]
-    sg = aa.Grid2D.from_mask(mask=mask).subtracted_from(offset=(fl(off[0]), fl(off[1])))
+    sg = mk_grid(aa, mask).subtracted_from(offset=(fl(off[0]), fl(off[1])))
     g = grid_out(sg); ge = geom_of(sg.mask)
     return {"coq": [kgrid(f"(GSubtracted {cpt(off)})", m, ps, o, g), f"(KGeom (MSubtracted {cpt(off)}) {cM(m, ps, o)} (Some {cgeom(ge)}))"],
             "rel": [("grid", g), ("geom", ge)], "show": jg(g[:4])}
@@ -269,11 +514,23 @@ SHARED = {}     # configuration objects shared by the run at origin o and the ru
 def op_over(entry):
     def f(aa, m, ps, o, dd, prm):
         mask = mk_mask(aa, m, ps, o)
-        subs = prm["subs"]
-        ss = subs[0] if prm["uniform"] else aa.Array2D(values=np.array(subs, dtype=int), mask=mask)
+        subs = prm["subs"]; rel = []
+        if prm.get("radial"):
+            # a NON-UNIFORM sub-size map computed from the geometry itself: OverSamplingUniform.from_radial_bins around the mask
+            # centre (None) or around a translated centre; the map is count-valued and must not change with the origin
+            grid = mk_grid(aa, mask)
+            cl = None if prm["radial"] == "centre" else [(fl(prm["radial"][0] + o[0]), fl(prm["radial"][1] + o[1]))]
+            osr = aa.OverSamplingUniform.from_radial_bins(grid=grid, sub_size_list=[4, 2, 1],
+                                                          radial_list=[fl(min(ps) * F(5, 4)), fl(min(ps) * F(9, 4))], centre_list=cl)
+            ss = osr.sub_size
+            subs = [int(v) for v in np.array(ss)]
+            c0 = (fl(o[0]), fl(o[1])) if cl is None else cl[0]
+            rel += [("inv", subs), ("inv", [fr(v) for v in np.array(grid.squared_distances_to_coordinate_from(coordinate=c0))])]
+        else:
+            ss = subs[0] if prm["uniform"] else aa.Array2D(values=np.array(subs, dtype=int), mask=mask)
         if entry == "over":
             g = grid_out(aa.OverSamplerUniform(mask=mask, sub_size=ss).over_sampled_grid)
-            if prm["uniform"]:
+            if prm["uniform"] and not prm.get("radial"):
                 # the same OverSamplingUniform object configures the grid at o and the grid at o + d: the over sampler each grid
                 # reports must be the one of its own mask
                 osu = SHARED.setdefault("osu", aa.OverSamplingUniform(sub_size=int(subs[0])))
@@ -282,14 +539,35 @@ def op_over(entry):
                 if g2 != g or g3 != g:
                     return {"coq": [kgrid(f"(GOver {clist([cz(s) for s in subs])})", m, ps, o, g2 if g2 != g else g3)],
                             "rel": [("grid", g2 if g2 != g else g3)], "show": "shared OverSamplingUniform: " + jg((g2 if g2 != g else g3)[:4])}
-        else: g = grid_out(aa.BorderRelocator(mask=mask, sub_size=ss).sub_grid)
-        return {"coq": [kgrid(f"(GOver {clist([cz(s) for s in subs])})", m, ps, o, g)], "rel": [("grid", g)], "show": jg(g[:4])}
+            coq = [kgrid(f"(GOver {clist([cz(s) for s in subs])})", m, ps, o, g)]
+        else:
+            if prm.get("radial"): ss = aa.Array2D(values=np.array(subs, dtype=int), mask=mask)     # (BorderRelocator wants an integer map)
+            br = aa.BorderRelocator(mask=mask, sub_size=ss)
+            g = grid_out(br.sub_grid)
+            coq = [kgrid(f"(GOver {clist([cz(s) for s in subs])})", m, ps, o, g)]
+            # the border views of the same relocator: sub_border_grid = sub_grid[sub_border_slim], border_grid = derive_grid.border
+            sbi = [int(i) for i in br.sub_border_slim]; sbg = grid_out(br.sub_border_grid); bg = grid_out(br.border_grid)
+            bi = [int(i) for i in mask.derive_indexes.border_slim]
+            coq += [kgrid(f"(GOverSel {clist([cz(s) for s in subs])} {clist([cnat(i) for i in sbi])})", m, ps, o, sbg),
+                    kgrid(f"(GSel {clist([cnat(i) for i in bi])})", m, ps, o, bg)]
+            rel += [("inv", sbi), ("grid", sbg), ("grid", bg)]
+        return {"coq": coq, "rel": [("grid", g)] + rel, "show": jg(g[:4])}
     return f
 
 def op_centre(aa, m, ps, o, dd, prm):
     mask = mk_mask(aa, m, ps, o)
     c = mask.mask_centre; c = (fr(c[0]), fr(c[1]))
-    return {"coq": [f"(KPoint PMaskCentre {cM(m, ps, o)} (Some {cpt(c)}))"], "rel": [("point", c)], "show": S(c)}
+    # index- / count-valued results computed from the centre: the pixel that contains it, the masked-pixel shape, circularity
+    cpix = tuple(int(v) for v in mask.geometry.pixel_coordinates_2d_from(scaled_coordinates_2d=mask.mask_centre))
+    rel = [("point", c), ("inv", cpix), ("inv", [int(v) for v in mask.shape_native_masked_pixels])]
+    coq = [f"(KPoint PMaskCentre {cM(m, ps, o)} (Some {cpt(c)}))", f"(KPixelCoords {cM(m, ps, o)} {cgrid([c])} {clist([czz(cpix)])})"]
+    if ps[0] == ps[1]:
+        rel.append(("inv", bool(mask.is_circular)))
+        if mask.is_circular: rel.append(("inv", fr(fresh_mask(aa, m, ps, o).circular_radius)))
+    arr = mk_array(aa, np.ones((len(m), len(m[0]))), mask)       # the same through a structure on the mask
+    rel += [("point", (fr(arr.origin[0]), fr(arr.origin[1]))), ("extent", tuple(fr(v) for v in arr.geometry.extent)),
+            ("grid", grid_out(arr.unmasked_grid))]
+    return {"coq": coq, "rel": rel, "show": S(c)}
 
 def op_extent(aa, m, ps, o, dd, prm):
     mask = mk_mask(aa, m, ps, o)
@@ -308,7 +586,7 @@ def op_zoom_unmasked(aa, m, ps, o, dd, prm):
 def op_zoomed_around(aa, m, ps, o, dd, prm):
     mask = mk_mask(aa, m, ps, o)
     H, W = len(m), len(m[0])
-    arr = aa.Array2D(values=np.arange(float(H * W)).reshape(H, W), mask=mask)
+    arr = mk_array(aa, np.arange(float(H * W)).reshape(H, W), mask)
     z = arr.zoomed_around_mask(buffer=prm["buffer"])
     ge = geom_of(z.mask); vals = [float(v) for v in np.array(z.native).ravel()]
     ex = tuple(fr(v) for v in arr.extent_of_zoomed_array(buffer=prm["buffer"]))
@@ -326,11 +604,13 @@ def op_zoom_props(aa, m, ps, o, dd, prm):
 def op_radial(aa, m, ps, o, dd, prm):
     mask = mk_mask(aa, m, ps, o)
     c = padd(padd(o, prm["c_rel"]), (0, 0))
-    grid = aa.Grid2D.from_mask(mask=mask)
+    grid = mk_grid(aa, mask)
     g = grid_out(grid.grid_2d_radial_projected_from(centre=(fl(c[0]), fl(c[1])), angle=0.0, shape_slim=prm["shape_slim"],
                                                     remove_projected_centre=prm["remove"]))
     n = int(grid.grid_2d_radial_projected_shape_slim_from(centre=(fl(c[0]), fl(c[1]))))
-    return {"coq": [kgrid(f"(GRadial {cpt(c)} {cz(prm['shape_slim'])} {cbool(prm['remove'])})", m, ps, o, g)],
+    from autoconf import conf
+    rm = bool(conf.instance["general"]["grid"]["remove_projected_centre"]) if prm["remove"] is None else prm["remove"]
+    return {"coq": [kgrid(f"(GRadial {cpt(c)} {cz(prm['shape_slim'])} {cbool(rm)})", m, ps, o, g)],
             "rel": [("grid", g), ("inv", n)], "show": jg(g[:4])}
 
 def overlay_exact(m, ps, o, sy, sx):
@@ -353,7 +633,8 @@ def op_overlay(aa, m, ps, o, dd, prm):
     if not overlay_exact(m, ps, o, sy, sx): return None
     mask = mk_mask(aa, m, ps, o)
     try:
-        g = grid_out(aa.image_mesh.Overlay(shape=(sy, sx)).image_plane_mesh_grid_from(mask=mask))
+        # ONE Overlay object serves the mask at o and the mask at o + d (and is evaluated again afterwards)
+        g = grid_out(SHARED.setdefault("overlay", aa.image_mesh.Overlay(shape=(sy, sx))).image_plane_mesh_grid_from(mask=mask))
     except IndexError:
         g = "IndexError"
     return {"coq": [kgrid(f"(GOverlay {cz(sy)} {cz(sx)})", m, ps, o, g)], "rel": [("grid", None if isinstance(g, str) else g)],
@@ -397,7 +678,7 @@ def op_rect_mapper(aa, m, ps, o, dd, prm):
     """MapperRectangular on the (translated) unmasked grid of the mask, mesh = Mesh2DRectangular.overlay_grid"""
     sy, sx = prm["shape"]; buf = prm["buffer"]
     mask = mk_mask(aa, m, ps, o)
-    grid = aa.Grid2D.from_mask(mask=mask)
+    grid = mk_grid(aa, mask)
     gl = grid_out(grid)
     for vs, s in (([p[0] for p in gl], sy), ([p[1] for p in gl], sx)):
         lo, hi = min(vs), max(vs)
@@ -419,12 +700,33 @@ def op_rect_mapper(aa, m, ps, o, dd, prm):
             "show": str(maps)}
 
 # ---- datasets
-def mk_imaging(aa, m, ps, o, rng_vals, psf=None):
+def mk_imaging(aa, m, ps, o, rng_vals, psf=None, pre=0):
+    """the un-masked Imaging on the frame (H x W, ps, o); [pre] > 0: the dataset is not fresh but DERIVED by operations that keep
+    that frame (its data arrays come out of arithmetic / native storage, or the dataset itself out of apply_mask with an all-False
+    mask, apply_over_sampling, a 1x1 trim), after its cached grids were read, or after it served another mask first"""
     H, W = len(m), len(m[0])
     kw = dict(pixel_scales=(fl(ps[0]), fl(ps[1])), origin=(fl(o[0]), fl(o[1])))
-    data = aa.Array2D.no_mask(values=np.array(rng_vals, dtype=float).reshape(H, W), **kw)
-    noise = aa.Array2D.no_mask(values=np.full((H, W), 2.0), **kw)
-    return aa.Imaging(data=data, noise_map=noise, psf=psf)
+    vals = np.array(rng_vals, dtype=float).reshape(H, W)
+    if pre == 1:
+        data = aa.Array2D.no_mask(values=vals / 2.0, **kw) * 2.0
+        noise = aa.Array2D(values=np.full((H, W), 2.0), mask=aa.Mask2D.all_false(shape_native=(H, W), **kw)).native.slim
+    else:
+        data = aa.Array2D.no_mask(values=vals, **kw)
+        noise = aa.Array2D.no_mask(values=np.full((H, W), 2.0), **kw)
+    ds = aa.Imaging(data=data, noise_map=noise, psf=psf)
+    CTX["args"].append((data, np.array(data).copy(), mask_fp(data.mask)))       # the caller's arrays: geometry must survive every call
+    if pre == 2:
+        ds.grids.uniform; ds.grids.pixelization
+        ds = ds.apply_mask(mask=aa.Mask2D.all_false(shape_native=(H, W), **kw))
+    elif pre == 3:
+        ds = ds.apply_over_sampling(aa.OverSamplingDataset(uniform=aa.OverSamplingUniform(sub_size=2)))
+    elif pre == 4:
+        ds.grids.uniform
+        ds = ds.trimmed_after_convolution_from(kernel_shape=(1, 1))
+    elif pre == 5 and H * W > 1:      # the same dataset object first serves ANOTHER mask
+        other = np.ones((H, W), dtype=bool); other[0, 0] = False
+        ds.apply_mask(mask=aa.Mask2D(mask=other, **kw)).grids.uniform
+    return ds
 
 def ds_result(ds, op, data_in, noise_in, arg, with_over=None):
     """Coq cases + relation items for a returned Imaging"""
@@ -444,25 +746,30 @@ def op_ds(which):
     def f(aa, m, ps, o, dd, prm):
         H, W = len(m), len(m[0])
         full = [[False] * W for _ in range(H)]
-        psf = aa.Kernel2D.no_mask(values=[[0.0, 1.0, 0.0], [1.0, 2.0, 1.0], [0.0, 1.0, 0.0]], pixel_scales=(fl(ps[0]), fl(ps[1]))) if prm.get("psf") else None
+        psf = SHARED.setdefault("psf", aa.Kernel2D.no_mask(values=[[0.0, 1.0, 0.0], [1.0, 2.0, 1.0], [0.0, 1.0, 0.0]],
+                                                           pixel_scales=(fl(ps[0]), fl(ps[1])))) if prm.get("psf") else None
         mask = mk_mask(aa, m, ps, o)
         D = cM(full, ps, o)
         if which == "simulate":
             image = aa.Array2D.no_mask(values=np.array(prm["vals"], dtype=float).reshape(H, W), pixel_scales=(fl(ps[0]), fl(ps[1])),
                                        origin=(fl(o[0]), fl(o[1])))
-            sim = aa.SimulatorImaging(exposure_time=1000.0, psf=aa.Kernel2D.no_mask(values=[[1.0]], pixel_scales=(fl(ps[0]), fl(ps[1]))),
-                                      add_poisson_noise_to_data=prm["poisson"], include_poisson_noise_in_noise_map=prm["poisson"],
-                                      noise_if_add_noise_false=1.0, noise_seed=1, normalize_psf=False)
+            if CTX["aprov"] in (1, 6): image = (image + 1.0) - 1.0
+            elif CTX["aprov"] in (2, 3): image = image.native
+            CTX["args"].append((image, np.array(image).copy(), mask_fp(image.mask)))
+            sim = SHARED.setdefault("sim", aa.SimulatorImaging(
+                exposure_time=1000.0, psf=aa.Kernel2D.no_mask(values=[[1.0]], pixel_scales=(fl(ps[0]), fl(ps[1]))),
+                add_poisson_noise_to_data=prm["poisson"], include_poisson_noise_in_noise_map=prm["poisson"],
+                noise_if_add_noise_false=1.0, noise_seed=1, normalize_psf=False))      # one simulator for both origins
             ds = sim.via_image_from(image=image)
             coq, rel, gd = ds_result(ds, f"(DSimulate {cbool(prm['poisson'])})", D, D, D)
         elif which == "s2n":
-            ds0 = mk_imaging(aa, m, ps, o, prm["vals"])
+            ds0 = mk_imaging(aa, m, ps, o, prm["vals"], pre=CTX["aprov"] % 6)
             nm = aa.preprocess.noise_map_with_signal_to_noise_limit_from(data=ds0.data, noise_map=ds0.noise_map, signal_to_noise_limit=2.0)
             gd = geom_of(nm.mask)
             coq = [f"(KDataset DS2N {D} {D} {D} ({cgeom(gd)}, {cgeom(gd)}))"]
             rel = [("geom", gd), ("inv", [float(v) for v in np.array(nm.native).ravel()]), ("grid", grid_out(nm.mask.derive_grid.unmasked))]
         else:
-            ds0 = mk_imaging(aa, m, ps, o, prm["vals"], psf)
+            ds0 = mk_imaging(aa, m, ps, o, prm["vals"], psf, pre=CTX["aprov"] % 6)
             if which == "apply_mask":
                 ds = ds0.apply_mask(mask=mask)
                 pm = [[bool(b) for b in r] for r in np.array(ds.data.mask)]
@@ -495,7 +802,7 @@ OPS = {
     "dg_all_false": op_simple(lambda p: "GAllFalse", lambda aa, mask, p: mask.derive_grid.all_false),
     "dg_unmasked": op_simple(lambda p: "GFromMask", lambda aa, mask, p: mask.derive_grid.unmasked),
     "dg_edge": op_sel("edge"), "dg_border": op_sel("border"),
-    "blurring": op_blurring, "padded": op_padded, "trimmed_array": op_trimmed_array, "subtracted": op_subtracted, "over": op_over("over"), "sub_grid": op_over("sub_grid"), "resized": op_resized,
+    "blurring": op_blurring, "padded": op_padded, "trimmed_array": op_trimmed_array, "subtracted": op_subtracted, "over": op_over("over"), "sub_grid": op_over("sub_grid"), "resized": op_resized, "rescaled": op_rescaled,
     "centre": op_centre, "extent": op_extent, "zoom_unmasked": op_zoom_unmasked, "zoomed_around": op_zoomed_around,
     "zoom_props": op_zoom_props, "radial": op_radial, "overlay": op_overlay, "pixel_coords": op_pixel_coords,
     "pixel_grids": op_pixel_grids, "scaled_of_pixels": op_scaled_of_pixels, "rect_mapper": op_rect_mapper,
@@ -513,18 +820,25 @@ def span_shape(rng, m, axis):
 def odd(rng, hi=5): return rng.choice([k for k in (1, 3, 5, 7) if k <= hi])
 def vals(rng, m): return [rng.randint(1, 9) for _ in range(len(m) * len(m[0]))]
 def nun_of(m): return sum(1 for r in m for b in r if not b)
+def over_params(rng, m, ps):
+    u = rng.random() < 0.4
+    prm = {"uniform": u, "subs": [rng.choice([1, 2, 4])] * nun_of(m) if u else [rng.choice([1, 2, 4]) for _ in range(nun_of(m))]}
+    if rng.random() < 0.3:
+        prm["radial"] = "centre" if rng.random() < 0.4 else (ps[0] * F(rng.randint(-8, 8), 4), ps[1] * F(rng.randint(-8, 8), 4))
+    return prm
 PARAMS = {
     "blurring": lambda rng, m, ps: {"k": (3, 3) if rng.random() < 0.6 else (odd(rng, 3), odd(rng, 3))},
     "padded": lambda rng, m, ps: {"k": (odd(rng, 7), odd(rng, 7))},
     "subtracted": lambda rng, m, ps: {"off": (ps[0] * F(rng.randint(-8, 8), 4), ps[1] * F(rng.randint(-8, 8), 4)) if rng.random() < 0.9 else (F(0), F(0))},
     "trimmed_array": lambda rng, m, ps: {"k": (odd(rng, 7), odd(rng, 7)),
                                          "image_shape": None if rng.random() < 0.7 else (rng.randint(1, len(m)), rng.randint(1, len(m[0])))},
-    "over": lambda rng, m, ps: (lambda u: {"uniform": u, "subs": [rng.choice([1, 2, 4])] * nun_of(m) if u else [rng.choice([1, 2, 4]) for _ in range(nun_of(m))]})(rng.random() < 0.4),
-    "sub_grid": lambda rng, m, ps: (lambda u: {"uniform": u, "subs": [rng.choice([1, 2, 4])] * nun_of(m) if u else [rng.choice([1, 2, 4]) for _ in range(nun_of(m))]})(rng.random() < 0.4),
+    "over": lambda rng, m, ps: over_params(rng, m, ps),
+    "sub_grid": lambda rng, m, ps: over_params(rng, m, ps),
     "resized": lambda rng, m, ps: {"shape": (rng.randint(1, 9), rng.randint(1, 9))},
+    "rescaled": lambda rng, m, ps: {"factor": rng.choice([2.0, 2.0, 0.5, 1.5, 3.0])},
     "zoomed_around": lambda rng, m, ps: {"buffer": rng.choice([0, 1, 1, 2])},
     "radial": lambda rng, m, ps: {"c_rel": (ps[0] * F(rng.randint(-8, 8), 4), ps[1] * F(rng.randint(-8, 8), 4)) if rng.random() < 0.8 else (F(0), F(0)),
-                                  "shape_slim": rng.choice([0, 0, 0, 3, 5]), "remove": rng.random() < 0.5},
+                                  "shape_slim": rng.choice([0, 0, 0, 3, 5]), "remove": rng.choice([True, False, False, None, None])},
     "overlay": lambda rng, m, ps: {"shape": (span_shape(rng, m, 0), span_shape(rng, m, 1))},
     "pixel_coords": lambda rng, m, ps: {"pts": pts_for(rng, m, ps), "pix": [(F(rng.randint(-8, 40), 4), F(rng.randint(-8, 40), 4)) for _ in range(4)]},
     "pixel_grids": lambda rng, m, ps: {"pts": pts_for(rng, m, ps)},
@@ -540,9 +854,12 @@ PARAMS = {
 }
 
 TOL = 1e-9
-def close_grids(ga, gb, d, tol=TOL):
+def close_grids(ga, gb, d, tol=TOL, ps=(1, 1)):
+    """gb = ga + d within tol RELATIVE to the scale of each column (pixel scale of the axis, or the coordinate's own magnitude):
+    an absolute tolerance would hide a tiny column"""
     if ga.shape != gb.shape: return False
-    return bool(np.all(np.abs(gb - (ga + np.array([float(d[0]), float(d[1])]))) <= tol * np.maximum(1.0, np.abs(gb))))
+    scale = np.maximum(np.array([float(ps[0]), float(ps[1])]), np.abs(gb))
+    return bool(np.all(np.abs(gb - (ga + np.array([float(d[0]), float(d[1])]))) <= tol * scale))
 
 def circ_mask(aa, n, ps, o, radius):
     # NB Mask2D.circular places `centre` relative to the array centre whatever `origin` is (shape constructors are C02's):
@@ -593,9 +910,10 @@ def sp_hilbert_mesh(aa, inp, ps, o, d, rng):
         # square cell (a masked image, zero outside the circle, would make the oracle's tie-breaking visible)
         img = aa.Array2D.no_mask(values=np.array([[ca * y + cb * x + cc for x in range(n)] for y in range(n)], dtype=float),
                                  pixel_scales=mask.pixel_scales, origin=mask.origin)
-        g = aa.image_mesh.Hilbert(pixels=pixels, weight_power=power, weight_floor=floor).image_plane_mesh_grid_from(mask=mask, adapt_data=img)
+        hm = SHARED.setdefault("hilbert", aa.image_mesh.Hilbert(pixels=pixels, weight_power=power, weight_floor=floor))    # one object, both origins
+        g = hm.image_plane_mesh_grid_from(mask=mask, adapt_data=img)
         out.append(np.asarray(g, dtype=float))
-    ok = close_grids(out[0], out[1], d, 1e-7)
+    ok = close_grids(out[0], out[1], d, 1e-7, ps)
     return {"coq": None, "py_ok": ok, "kind": "hilbert_mesh", "nontrivial": True,
             "out": {"n": n, "radius": str(radius), "pixels": pixels, "power": power, "at_o": out[0][:3].tolist(), "at_o_plus_d": out[1][:3].tolist()}}
 
@@ -642,21 +960,28 @@ def sp_delaunay_mapper(aa, inp, ps, o, d, rng):
     return {"coq": None, "py_ok": ok, "kind": "delaunay_mapper", "nontrivial": True,
             "out": {"mask": m, "mesh": jg(pts), "table_at_o": str(ta)[:300], "table_at_o_plus_d": str(tb)[:300]}}
 
+def ctol(ps): return cpt((ps[0] * F(1, 10 ** 9), ps[1] * F(1, 10 ** 9)))      # 1e-9 relative to the pixel scale of each axis
+
 def sp_relocate(aa, inp, ps, o, d, rng):
-    """BorderRelocator.relocated_grid_from(grid + d) = relocated_grid_from(grid) + d (tolerance; decisions kept at a margin)"""
+    """BorderRelocator.relocated_grid_from(grid + d) = relocated_grid_from(grid) + d, and the same for relocated_mesh_grid_from
+    (grid + d, mesh + d) (tolerance relative to the pixel scales; decisions kept at a margin)"""
     H, W = rng.randint(3, 6), rng.randint(3, 6)
     m = rand_mask(rng, H, W, rng.choice(["random", "full", "ring"]))
     sub = rng.choice([1, 2])
+    use_mesh = rng.random() < 0.4
     out = []; skip = False; obs = []
-    pert = None
+    pert = None; mesh_rel = None
     for oo in (o, padd(o, d)):
-        mask = mk_mask(aa, m, ps, oo)
+        mask = fresh_mask(aa, m, ps, oo)
+        # ONE relocator per origin, used twice (its sub_border_slim / sub_border_grid are cached on the object)
         br = aa.BorderRelocator(mask=mask, sub_size=sub)
         sg = np.asarray(br.sub_grid, dtype=float)
         if pert is None:
             pp = rng.choice([1.0, 1.0, 0.8, 0.5])      # fraction of deflected coordinates (undeflected symmetric points tie in argmin)
             pert = np.array([[float(ps[0] * F(2 * rng.randint(-40, 40) + 1, 32)) if rng.random() < pp else 0.0,
                               float(ps[1] * F(2 * rng.randint(-40, 40) + 1, 32)) if rng.random() < pp else 0.0] for _ in range(sg.shape[0])])
+            mesh_rel = [(ps[0] * F(2 * rng.randint(-8 * H, 8 * H) + 1, 32), ps[1] * F(2 * rng.randint(-8 * W, 8 * W) + 1, 32))
+                        for _ in range(rng.randint(1, 6))]
             # The only discontinuous decision is the argmin over border points (computed exactly: squared distances of dyadic
             # points); an exact tie between border points of different radius is skipped.  The two radius comparisons
             # (r > min border radius, move_factor < 1) are continuous at their boundary (move_factor = 1 is the identity), so a
@@ -667,38 +992,57 @@ def sp_relocate(aa, inp, ps, o, d, rng):
                 bg = [g[i] for i in bidx]
                 bo = (sum(p[0] for p in bg) / len(bg), sum(p[1] for p in bg) / len(bg))
                 r2 = lambda p: (p[0] - bo[0]) ** 2 + (p[1] - bo[1]) ** 2
-                for p in g:
+                for p in (g if not use_mesh else [padd(q, o) for q in mesh_rel]):
                     dist = [(p[0] - q[0]) ** 2 + (p[1] - q[1]) ** 2 for q in bg]
                     if len({r2(q) for q, dd_ in zip(bg, dist) if dd_ == min(dist)}) > 1: skip = True
         gin = sg + pert
-        res_ = np.asarray(br.relocated_grid_from(grid=aa.Grid2DIrregular(values=gin)), dtype=float)
+        grid_in = aa.Grid2DIrregular(values=gin.copy())
+        if use_mesh:
+            mesh_in = np.array([[fl(q[0] + oo[0]), fl(q[1] + oo[1])] for q in mesh_rel])
+            res_ = np.asarray(br.relocated_mesh_grid_from(grid=grid_in, mesh_grid=aa.Grid2DIrregular(values=mesh_in)), dtype=float)
+            res2 = np.asarray(br.relocated_mesh_grid_from(grid=grid_in, mesh_grid=aa.Grid2DIrregular(values=mesh_in)), dtype=float)
+            cmesh = f"(Some {cgrid(grid_out(mesh_in))})"
+        else:
+            res_ = np.asarray(br.relocated_grid_from(grid=grid_in), dtype=float)
+            res2 = np.asarray(br.relocated_grid_from(grid=grid_in), dtype=float)
+            cmesh = "None"
+        if not np.array_equal(res_, res2) or not np.array_equal(np.asarray(grid_in), gin): skip = "changed"     # same object, second call; argument intact
         out.append(res_)
-        obs.append(f"(KReloc {clist([cnat(i) for i in br.sub_border_slim])} {cgrid(grid_out(gin))} {cgrid(grid_out(res_))})")
-    if skip:
+        obs.append(f"(KReloc {clist([cnat(i) for i in br.sub_border_slim])} {cgrid(grid_out(gin))} {cmesh} {ctol(ps)} {cgrid(grid_out(res_))})")
+    if skip is True:
         SKIPPED["inexact"] += 1
         return {"coq": None, "py_ok": None, "kind": "relocate:skipped-margin", "nontrivial": False, "out": "skipped"}
-    ok = close_grids(out[0], out[1], d, 1e-9)
+    ok = close_grids(out[0], out[1], d, 1e-9, ps) and skip != "changed"
     return {"coq": f"(KPair {cpt(d)} {obs[0]} {obs[1]})", "py_ok": ok, "kind": "relocate", "nontrivial": True,
-            "out": {"mask": m, "sub": sub, "at_o": out[0][:3].tolist(), "at_o_plus_d": out[1][:3].tolist()}}
+            "out": {"mask": m, "sub": sub, "mesh": use_mesh, "at_o": out[0][:3].tolist(), "at_o_plus_d": out[1][:3].tolist(),
+                    "relation": "a second call on the same relocator gave another result, or the grid argument was modified" if skip == "changed" else ""}}
 
 def sp_radial_angle(aa, inp, ps, o, d, rng):
-    """grid_2d_radial_projected_from at a non-zero angle (cos / sin / arctan2 in doubles): relation with tolerance"""
+    """grid_2d_radial_projected_from at a non-zero angle (cos / sin / arctan2 in doubles): model (with the pair (cos theta, sin theta)
+    numpy computed) and relation, tolerance relative to the pixel scales"""
     H, W = rng.randint(2, 6), rng.randint(2, 6)
     m = rand_mask(rng, H, W, "random")
     c_rel = (ps[0] * F(rng.randint(-6, 6), 4), ps[1] * F(rng.randint(-6, 6), 4))
-    angle = rng.choice([30.0, 45.0, 90.0, 137.0, 200.0, 315.0])
-    out = []
+    angle = rng.choice([30.0, 45.0, 90.0, 137.0, 200.0, 315.0, -60.0, 180.0, 0.0])
+    ss = rng.choice([0, 0, 3]); rm = rng.choice([False, False, True, None])
+    theta = np.arctan2(0.0, 1.0) - np.radians(angle)            # what transform_grid_2d_to_reference_frame computes for every point
+    cssn = (fr(np.cos(theta)), fr(np.sin(theta)))
+    from autoconf import conf
+    rm_eff = bool(conf.instance["general"]["grid"]["remove_projected_centre"]) if rm is None else rm
+    out = []; obs = []
     for oo in (o, padd(o, d)):
-        mask = mk_mask(aa, m, ps, oo)
+        mask = fresh_mask(aa, m, ps, oo)
         c = padd(oo, c_rel)
-        out.append(np.asarray(aa.Grid2D.from_mask(mask=mask).grid_2d_radial_projected_from(centre=(fl(c[0]), fl(c[1])), angle=angle,
-                                                                                                    remove_projected_centre=False), dtype=float))
-    ok = close_grids(out[0], out[1], d, 1e-9)
-    return {"coq": None, "py_ok": ok, "kind": "radial_angle", "nontrivial": True,
-            "out": {"angle": angle, "at_o": out[0][:3].tolist(), "at_o_plus_d": out[1][:3].tolist()}}
+        g = np.asarray(aa.Grid2D.from_mask(mask=mask).grid_2d_radial_projected_from(centre=(fl(c[0]), fl(c[1])), angle=angle, shape_slim=ss,
+                                                                                    remove_projected_centre=rm), dtype=float).reshape(-1, 2)
+        out.append(g)
+        obs.append(f"(KRadialA {cM(m, ps, oo)} {cpt(c)} {cpt(cssn)} {cz(ss)} {cbool(rm_eff)} {ctol(ps)} {cgrid(grid_out(g))})")
+    ok = close_grids(out[0], out[1], d, 1e-9, ps)
+    return {"coq": f"(KPair {cpt(d)} {obs[0]} {obs[1]})", "py_ok": ok, "kind": "radial_angle", "nontrivial": True,
+            "out": {"angle": angle, "shape_slim": ss, "remove": str(rm), "at_o": out[0][:3].tolist(), "at_o_plus_d": out[1][:3].tolist()}}
 
 SPECIAL = {"hilbert_geometry": sp_hilbert_geometry, "hilbert_mesh": sp_hilbert_mesh, "delaunay_mapper": sp_delaunay_mapper,
            "relocate": sp_relocate, "radial_angle": sp_radial_angle}
 
 def extra_evidence():
-    return {"skipped_inexact": SKIPPED["inexact"]}
+    return {"skipped_inexact": SKIPPED["inexact"], "mask_routes": dict(sorted(ROUTES.items()))}
